@@ -197,6 +197,18 @@ theorem C22_nopanic_repaired (f : CodeFacts) (hf : f.nilRepaired = true) (hr : f
 theorem C22_nopanic (m : Mode) (s : Server) : (connect Gen.sessionFacts m s).outcome ≠ .panic :=
   C22_nopanic_repaired Gen.sessionFacts (by decide) (by decide) m s
 
+/-- a certificate CHAIN in the response is identified by its first certificate
+    (the one `ParseCertificate` returns, the sender's): a signature made with
+    the key of a foreign certificate appended behind the genuine one proves
+    nothing and is rejected; with the foreign certificate first it verifies
+    only against the foreign key -/
+theorem C22_chain_first_certificate_counts :
+    ¬ sigValid ⟨.ok, .chainOwnOther, .other, .right, .intact, .ok, .ok, true⟩ ∧
+    (connect Gen.sessionFacts .sign ⟨.ok, .chainOwnOther, .other, .right, .intact, .ok, .ok, true⟩).outcome = .err ∧
+    sigValid ⟨.ok, .chainOwnOther, .own, .right, .intact, .ok, .ok, true⟩ ∧
+    ¬ sigValid ⟨.ok, .chainOtherOwn, .own, .right, .intact, .ok, .ok, true⟩ := by
+  decide
+
 /-! ### the reconnect path (C22 composed into the C25 LTS) -/
 
 /-- RECONNECT inherits C22: when the monitor goroutine re-creates the session
